@@ -256,6 +256,7 @@ EXTRA["C02"] += " (descent) the neighbour rules of the three-way descent RangeGe
 EXTRA["C05"] = " (stat) Stat maps its report from the level table that NewSlimTrie and Unmarshal derive from the message alike (rules C18.mapping/identity, taken over)."
 EXTRA["C14"] += " (load-routing) each compatible version is routed to the loader and fix-ups of its layout (rule C06.routing, taken over)."
 EXTRA["C19"] += " (bitslice) the short-node table index is exactly the stored bits of the node (rule shared with C01/C10)."
+EXTRA["C18"] += " (single-leaf) the rank query that yields the node total runs for every trie with at least one inner node; the constant total is for a single leaf only."
 for _k, _v in EXTRA.items():
     CLAIMS[_k]["text"] = CLAIMS[_k]["text"] + _v
 
